@@ -69,6 +69,13 @@ def g_extensions(c, hint=None):
         b = c.run(["-f", fmt, fname])
         if a != b or a[0] != 0:
             bad.append("`xt %s` differs from `xt -f %s %s`: %r vs %r" % (fname, fmt, fname, a[:2], b[:2]))
+    # a file name that is nothing but ".json" has no extension (Path::extension): its content is detected
+    for dot, content in ((".json", "yaml"), (".yaml", "json"), (".TOML", "json"), (".msgpack", "yaml"), (".yml", "toml")):
+        open(os.path.join(c.dir, dot), "wb").write(CONTENT[content])
+        a = c.run([dot])
+        b = c.run(["-f", content, "doc." + content])
+        if a[0] != 0 or a[:2] != b[:2]:
+            bad.append("`xt %s` (a dotfile without extension holding %s) should be detected by content like `xt -f %s doc.%s`: %r vs %r" % (dot, content, content, content, a[:3], b[:2]))
     # a misleading extension is believed; -f overrides it
     a = c.run(["lies.json"])
     if a[0] != 1 or not a[2].startswith(b"xt error in lies.json"):
